@@ -5,7 +5,7 @@ package ciphersuite
 //symgo:param CBC_CID quick=2 thorough=2
 //symgo:stub the block cipher (cbcMode) is a harness fake: BlockSize 16, CryptBlocks overwrites the buffer with arbitrary (symbolic) bytes - a peer that holds the keys can make the decrypted body anything
 //symgo:stub crypto/hmac.New returns a fake hash whose Sum is an arbitrary (symbolic) value of the MAC size (20 as for SHA-1, or 32 as for SHA-256); crypto/hmac.Equal is plain byte equality and records its verdict
-//symgo:outside bodies above CBC_BLOCKS blocks after the IV, connection ids above CBC_CID bytes
+//symgo:outside bodies above CBC_BLOCKS blocks after the IV (a 32-byte MAC needs 3 blocks to be accepted: with CBC_BLOCKS=2 only the 20-byte MAC reaches the accept path), connection ids above CBC_CID bytes
 
 import (
 	"hash"
@@ -57,8 +57,8 @@ func zzCBCFakeHMACEqual(a, b []byte) bool {
 // connection id (0..CBC_CID bytes pre-sized by the caller as Conn.decryptLegacyRecord does). Proved: no panic; a
 // protected record is accepted only after its MAC compared equal, with padding that is valid per RFC 5246
 // 6.2.3.2 and leaves room for the MAC; the result is the record header followed by exactly the bytes before the
-// MAC. The known crash F2 (valid padding longer than body minus MAC: negative slice index) shows up as
-// panic:...@(*CBC).Decrypt.
+// MAC. The crash F2 (valid padding longer than body minus MAC: negative slice index) is inside these bounds and
+// was reported by this entry as panic:slice bounds out of range@(*CBC).Decrypt before its fix.
 //
 //symgo:entry covers=accepted,accepted_cid,accepted_empty_content,rejected_mac,rejected_padding,rejected_short,rejected_header,ccs_passthrough paths=30000
 func zzCBCDecryptNoPanic() {
